@@ -345,7 +345,11 @@ def check_p2_step(W, prop):
     I.DIV["mode"] = "inv"
     I.DIV["axioms"] = {}
     try:
-        res = W.method("Quantile", "add", st, [F(x)], pc=pre)
+        budget0, W.m.run_budget_s = W.m.run_budget_s, 3600.0     # ~3.9k feasible paths in one call: this one legitimately takes minutes
+        try:
+            res = W.method("Quantile", "add", st, [F(x)], pc=pre)
+        finally:
+            W.m.run_budget_s = budget0
         lo = z3.If(x < q[0], x, q[0])
         hi = z3.If(x > q[4], x, q[4])
         n_paths = n_syntactic = n_solver = 0
@@ -485,6 +489,22 @@ def quantile_replay(q, n, m, p, x):
     return {"vars": list(q) + list(n) + list(m) + [p, x], "build": build, "counts": list(n), "count_max": 16}
 
 
+def init_replay(p, xs):
+    """new(p), five observations, dump: the expected state is the sorted heights, positions 1..5 and the paper's desired positions/increments"""
+    from .replay import f2w, fr
+
+    def build(vals):
+        pv = fr(float(vals[str(p)]))
+        xv = [fr(float(vals[str(x)])) for x in xs]
+        program = ["new Quantile " + f2w(float(pv))] + ["add " + f2w(float(x)) for x in xv] + ["dump"]
+        srt = sorted(xv)
+        exp_parts = [float(v) for v in srt] + [1, 2, 3, 4, 5] + [1.0, float(1 + 2 * pv), float(1 + 4 * pv), float(3 + 2 * pv), 5.0] \
+            + [0.0, float(pv / 2), float(pv), float((1 + pv) / 2), 1.0]
+        exp = {"quantile": srt[2], "len": 5, "_parts": exp_parts}
+        return program, [exp], {"scale": max([abs(float(v)) for v in xv] + [1.0]), "p": float(pv), "data": [float(x) for x in xv]}
+    return {"vars": [p] + list(xs), "build": build, "counts": ()}
+
+
 def check_p2_init(W, prop):
     """five symbolic observations from new(p): sorted heights, positions 1..5, the paper's desired positions"""
     p = z3.Real("p")
@@ -505,6 +525,7 @@ def check_p2_init(W, prop):
     want_dm = [z3.RealVal(0), p / 2, p, (1 + p) / 2, z3.RealVal(1)]
     goals += [R(am[j]) == want_m[j] for j in range(5)] + [R(adm[j]) == want_dm[j] for j in range(5)]
     W.prove("Quantile.initialisation(5 symbolic observations)", list(pre), z3.And(*goals), role="%s:Quantile.p2-initialisation" % prop,
+            replay=init_replay(p, xs),
             note="after the fifth observation: heights sorted (by the sort model; the real sort is decided bit-precisely by engine K), positions 1..5, "
                  "desired positions (1, 1+2p, 1+4p, 3+2p, 5) and increments (0, p/2, p, (1+p)/2, 1)")
     # quantile() reads the middle marker from then on
